@@ -16,7 +16,7 @@ DSETS = {
 }
 WS = [" ", "\n", "\t", "  \n ", "\r\n", " \t "]
 CORES = ["x", "a{b", "%}", "}}", "#}", "a-b", "-", "é", "©ë", "世", "x}", "{ y", "%", "a # b", "}-", "\U0001F600", "a b", "->"]
-RAWCORES = ["r", "{{ not }}", "{% if %}", "{# c #}", "{{- x -}}", "<< y >>", "¿ z ¡", "{% endra %}", "©-«"]
+RAWCORES = ["r", "{{ not }}", "{% if %}", "{# c #}", "{{- x -}}", "<< y >>", "¿ z ¡", "{% endra %}", "©-«", "{%- if x %} y", "{%- endra", "<%- z", "a -%}", "{%- raw -%}"]
 
 
 def concretise(src, ds, rnd):
@@ -83,6 +83,30 @@ def run(tier):
                 text = w + core + w
                 jobs.append({"cfg": {"delims": DSETS[ds]}, "ctx": {}, "steps": [{"op": "render_str", "src": text, "auto": False}]})
                 meta.append((-1, 0, ds, text, text))
+    # symmetry: whatever counts as whitespace at a facing end counts the same at BOTH ends and for every kind of marker
+    # (the statement does not list the characters; the two sides must agree)
+    sym = []
+    for w in ("\u00a0", "\u3000", "\u2028", "\u0085", "\x0b", "\x0c", "\u2003", " \u00a0 "):
+        for ds, d in DSETS.items():
+            BS, BE, VS, VE, CS, CE = d
+            pairs = [(VS + " v -" + VE + w + "x", "x" + w + VS + "- v " + VE), (BS + " set z = 1 -" + BE + w + "x", "x" + w + BS + "- set z = 1 " + BE),
+                     (CS + " c -" + CE + w + "x", "x" + w + CS + "- c " + CE),
+                     (BS + " raw " + BE + "r" + BS + " endraw -" + BE + w + "x", "x" + w + BS + "- raw " + BE + "r" + BS + " endraw " + BE)]
+            for a, b in pairs:
+                sym.append((w, ds, a, b))
+    sres = vp.run_jobs([{"cfg": {"delims": DSETS[ds]}, "ctx": {"v": "V"}, "steps": [{"op": "render_str", "src": a, "auto": False}, {"op": "render_str", "src": b, "auto": False}]} for w, ds, a, b in sym], tag="c08-sym")
+    for (w, ds, a, b), rr in zip(sym, sres):
+        C.count(2)
+        C.nontrivial(["sym", w, ds, a])
+        if not (rr[0].get("ok") and rr[1].get("ok")):
+            C.violation({"kind": "sym-error", "w": repr(w), "delims": ds}, "error rendering %r / %r" % (a, b), {"a": a, "b": b, "result": rr})
+            continue
+        after_trimmed = w not in rr[0]["out"]
+        before_trimmed = w not in rr[1]["out"]
+        if after_trimmed != before_trimmed:
+            C.violation({"kind": "asymmetric-whitespace", "w": repr(w), "delims": ds},
+                        "the character %r is %s after a closing `-` marker (%r -> %r) but %s before an opening one (%r -> %r)" % (
+                            w, "trimmed" if after_trimmed else "kept", a, rr[0]["out"], "trimmed" if before_trimmed else "kept", b, rr[1]["out"]), {"a": a, "b": b, "result": rr})
     res = vp.run_jobs(jobs, tag="c08", timeout=3000)
     outs = {}
     for (vi, var, ds, text, exp), rr in zip(meta, res):
